@@ -74,7 +74,10 @@ fn tsig_record(size: usize) -> Record<TSIG> {
 fn encoded_len<E: BinEncodable>(e: &E) -> usize {
     let mut buf = Vec::new();
     let mut enc = BinEncoder::new(&mut buf);
-    e.emit(&mut enc).unwrap();
+    // (a record that cannot be written at all counts as larger than any message)
+    if e.emit(&mut enc).is_err() {
+        return 65_536;
+    }
     buf.len()
 }
 
@@ -188,6 +191,18 @@ fn random_message(rng: &mut StdRng) -> Message {
     }
     if rng.random_bool(0.3) {
         m.signature = Some(Box::new(tsig_record(42 + 32)));
+    }
+    // now and then a record no encoder can write (a character-string of more than 255 octets) somewhere in
+    // a section: "encoding either fails or ..." -- what is not allowed is to leave it out silently
+    if rng.random_bool(0.08) {
+        let bad = Record::from_rdata(name(rng), 300, RData::TXT(TXT::new(vec!["q".repeat(300)])));
+        let sec = match rng.random_range(0..3) {
+            0 => &mut m.answers,
+            1 => &mut m.authorities,
+            _ => &mut m.additionals,
+        };
+        let at = rng.random_range(0..=sec.len());
+        sec.insert(at, bad);
     }
     m
 }
